@@ -116,9 +116,14 @@ Section Term.
   Variable P : registry.
   Variable mode : union_mode.
   Hypothesis Hcall : cfg_callable_assume cfg = true.
-  Hypothesis Htopo : topo P.
+  (* the WINDOW: only ids below K are ever visited (the operands, their descendants, the stacked
+     ancestors), so only they need to be topologically ordered.  K = ntypes P gives the plain
+     statement; K < ntypes P is what narrowing needs, which runs the relation on base ids inside a
+     registry that has grown since. *)
+  Variable K : nat.
+  Hypothesis Htopo : forall id t, id < K -> lookup_type P id = Some t -> forall c, In c (children P t) -> c < id.
 
-  Notation n := (ntypes P).
+  Notation n := K.
 
   Definition is_uc (id : nat) : bool :=
     match lookup_type P id with
@@ -133,13 +138,10 @@ Section Term.
     | _, _ => 0
     end.
   Definition w (s p : nat) : nat := 2 * (s + p) + flag s p.
-  Definition stack_ok (st : list nat) : Prop := forall id, In id st -> is_uc id = true.
+  Definition stack_ok (st : list nat) : Prop := forall id, In id st -> is_uc id = true /\ id < n.
 
   Lemma flag_le s p : flag s p <= 1.
   Proof. unfold flag. destruct (lookup_type P s) as [[]|]; destruct (lookup_type P p) as [[]|]; lia. Qed.
-
-  Lemma lookup_lt id t : lookup_type P id = Some t -> id < n.
-  Proof. unfold lookup_type, ntypes. intros H. apply nth_error_Some. congruence. Qed.
 
   Lemma w_bound s p : s < n -> p < n -> w s p <= rel_W n.
   Proof. intros Hs Hp. unfold w, rel_W. pose proof (flag_le s p). lia. Qed.
@@ -147,19 +149,27 @@ Section Term.
   Lemma stack_ok_nil : stack_ok [].
   Proof. intros id []. Qed.
 
-  Lemma stack_ok_push st id : stack_ok st -> is_uc id = true -> stack_ok (push_once st id).
+  Lemma stack_ok_push st id : stack_ok st -> is_uc id = true -> id < n -> stack_ok (push_once st id).
   Proof.
-    intros H Hid. unfold push_once. destruct (stack_contains st id); [exact H|].
-    intros x [<-|Hx]; [exact Hid|apply H; exact Hx].
+    intros H Hid Hlt. unfold push_once. destruct (stack_contains st id); [exact H|].
+    intros x [<-|Hx]; [split; assumption|apply H; exact Hx].
   Qed.
 
-  Lemma resolve_uc st d id : stack_ok st -> resolve_cycle st d = Some id -> is_uc id = true.
+  Lemma resolve_uc st d id : stack_ok st -> resolve_cycle st d = Some id -> is_uc id = true /\ id < n.
   Proof.
     intros H Hr. destruct d as [|d]; [discriminate|]. cbn in Hr. apply H. eapply nth_error_In. exact Hr.
   Qed.
 
-  Lemma is_uc_lt id : is_uc id = true -> id < n.
-  Proof. unfold is_uc. destruct (lookup_type P id) eqn:E; [|discriminate]. intros _. eapply lookup_lt. exact E. Qed.
+  (* the windowed forms of RelProofs.topo_union / topo_tuple / topo_partial / topo_callable *)
+  Lemma wt_union s vs v : s < n -> lookup_type P s = Some (TUnion vs) -> In v vs -> v < s.
+  Proof. intros Hs Hl Hin. apply (Htopo s _ Hs Hl). exact Hin. Qed.
+  Lemma wt_tuple s tid info f : s < n ->
+    lookup_type P s = Some (TTuple tid) -> lookup_tuple P tid = Some info -> In f (tfields info) -> snd f < s.
+  Proof. intros Hs Hl Ht Hin. apply (Htopo s _ Hs Hl). cbn. rewrite Ht. apply in_map. exact Hin. Qed.
+  Lemma wt_partial s nm fs f : s < n -> lookup_type P s = Some (TPartial nm fs) -> In f fs -> snd f < s.
+  Proof. intros Hs Hl Hin. apply (Htopo s _ Hs Hl). cbn. apply in_map. exact Hin. Qed.
+  Lemma wt_callable s p r rc : s < n -> lookup_type P s = Some (TCallable p r rc) -> p < s /\ r < s /\ rc < s.
+  Proof. intros Hs Hl. repeat split; apply (Htopo s _ Hs Hl); cbn; auto. Qed.
 
   (* what a recursive call must satisfy to be answered, and what it answers *)
   Definition rec_ok (rec : assumptions -> list nat -> list nat -> nat -> nat -> res)
@@ -330,25 +340,24 @@ Section Term.
       + exists false, A'. split; [reflexivity|]. eapply ext_trans; [exact X|apply ext_cons].
   Qed.
 
-  Lemma topo_proc_send s a r : lookup_type P s = Some (TProcess (Some a) r) -> a < s.
-  Proof. intros Hl. apply (Htopo s _ Hl). cbn. left; reflexivity. Qed.
-  Lemma topo_proc_recv s a r : lookup_type P s = Some (TProcess a (Some r)) -> r < s.
-  Proof. intros Hl. apply (Htopo s _ Hl). cbn. apply in_or_app. right. left; reflexivity. Qed.
+  Lemma topo_proc_send s a r : s < n -> lookup_type P s = Some (TProcess (Some a) r) -> a < s.
+  Proof. intros Hs Hl. apply (Htopo s _ Hs Hl). cbn. left; reflexivity. Qed.
+  Lemma topo_proc_recv s a r : s < n -> lookup_type P s = Some (TProcess a (Some r)) -> r < s.
+  Proof. intros Hs Hl. apply (Htopo s _ Hs Hl). cbn. apply in_or_app. right. left; reflexivity. Qed.
 
   Ltac triv := eexists _, _; split; [reflexivity|apply ext_refl].
 
   Lemma step_spec rec A ss ps s p :
-    stack_ok ss -> stack_ok ps ->
+    s < n -> p < n -> stack_ok ss -> stack_ok ps ->
     (forall A' ss' ps' s' p', stack_ok ss' -> stack_ok ps' -> call_rel A s p A' s' p' ->
                               rec_ok rec A' ss' ps' s' p') ->
     exists b A', step cfg P mode rec A ss ps s p = Some (b, A') /\ ext A' A.
   Proof.
-    intros Hss Hps Hrec. unfold step.
+    intros Hsn Hpn Hss Hps Hrec. unfold step.
     destruct (Nat.eqb s p) eqn:Heq; [triv|].
     destruct (assumed A (s, p)) eqn:Has; [triv|].
     destruct (lookup_type P s) as [st|] eqn:Hls; [|triv].
     destruct (lookup_type P p) as [pt|] eqn:Hlp; [|triv].
-    pose proof (lookup_lt _ _ Hls) as Hsn. pose proof (lookup_lt _ _ Hlp) as Hpn.
     pose proof (is_uc_of _ _ Hls) as Hucs. pose proof (is_uc_of _ _ Hlp) as Hucp.
     pose proof (is_cyc_of _ _ Hls) as Hcys. pose proof (is_cyc_of _ _ Hlp) as Hcyp.
     (* sub-calls of a structural arm (neither side a union / callable / cycle) *)
@@ -376,7 +385,8 @@ Section Term.
     { intros C1 st0 d S0. destruct (resolve_cycle st0 d) as [sid|] eqn:Hres; [|triv].
       pose proof (resolve_uc _ _ _ S0 Hres) as Hu.
       apply (Hrec A ss ps sid p Hss Hps). unfold call_rel.
-      repeat (split; [first [assumption|apply is_uc_lt; assumption|apply ext_refl]|]).
+      destruct Hu as [Hu Hult].
+      repeat (split; [first [assumption|apply ext_refl]|]).
       right. left. repeat split; assumption. }
     assert (Hcp : is_cyc s = false -> is_cyc p = true -> forall d,
               exists b A', match resolve_cycle ps d with
@@ -386,7 +396,8 @@ Section Term.
     { intros C1 C2 d. destruct (resolve_cycle ps d) as [sid|] eqn:Hres; [|triv].
       pose proof (resolve_uc _ _ _ Hps Hres) as Hu.
       apply (Hrec A ss ps s sid Hss Hps). unfold call_rel.
-      repeat (split; [first [assumption|apply is_uc_lt; assumption|apply ext_refl]|]).
+      destruct Hu as [Hu Hult].
+      repeat (split; [first [assumption|apply ext_refl]|]).
       right. right. repeat split; assumption. }
     assert (Hsel : stack_ok (if cfg_selfstack cfg then ss else ps)) by (destruct (cfg_selfstack cfg); assumption).
     (* union on the left *)
@@ -399,9 +410,9 @@ Section Term.
     { intros vs Hl C2. apply (retract_ok _ (s, p)).
       assert (C1 : is_cyc s = false) by (rewrite (is_cyc_of _ _ Hl); reflexivity).
       assert (S1 : stack_ok (if cfg_selfstack cfg then push_once ss s else ss)).
-      { destruct (cfg_selfstack cfg); [|exact Hss]. apply stack_ok_push; [exact Hss|]. rewrite (is_uc_of _ _ Hl). reflexivity. }
+      { destruct (cfg_selfstack cfg); [|exact Hss]. apply stack_ok_push; [exact Hss| |exact Hsn]. rewrite (is_uc_of _ _ Hl). reflexivity. }
       assert (Hq : forall v, In v vs -> Qw s p ((s, p) :: A) v p).
-      { intros v Hv. pose proof (topo_union P Htopo s vs v Hl Hv) as Hlt.
+      { intros v Hv. pose proof (wt_union s vs v Hsn Hl Hv) as Hlt.
         repeat split; [lia|exact Hpn|apply w_child; lia]. }
       destruct mode.
       - apply (all_left_ok rec ((s, p) :: A) (Qw s p) _ ps (Hins C1 C2 _ ps S1 Hps) (Qmono _) p vs _ (ext_refl _) Hq).
@@ -412,9 +423,9 @@ Section Term.
     { intros vs Hl C1. apply (retract_ok _ (s, p)).
       assert (C2 : is_cyc p = false) by (rewrite (is_cyc_of _ _ Hl); reflexivity).
       assert (S2 : stack_ok (push_once ps p)).
-      { apply stack_ok_push; [exact Hps|]. rewrite (is_uc_of _ _ Hl). reflexivity. }
+      { apply stack_ok_push; [exact Hps| |exact Hpn]. rewrite (is_uc_of _ _ Hl). reflexivity. }
       assert (Hq : forall v, In v vs -> Qw s p ((s, p) :: A) s v).
-      { intros v Hv. pose proof (topo_union P Htopo p vs v Hl Hv) as Hlt.
+      { intros v Hv. pose proof (wt_union p vs v Hpn Hl Hv) as Hlt.
         repeat split; [exact Hsn|lia|apply w_child; lia]. }
       apply (any_right_ok rec ((s, p) :: A) (Qw s p) ss _ (Hins C1 C2 ss _ Hss S2) (Qmono _) s vs _ (ext_refl _) Hq). }
     destruct st as [| | |tid1|pn1 pf1|p1 r1 c1|d1|vs1|sd1 rv1|rs1|v1];
@@ -433,8 +444,8 @@ Section Term.
       apply (tuple_fields_ok rec A (Qw s p) ss ps (Hstruct Hucs Hucp Hcys Hcyp ss ps Hss Hps) (Qmono _)
                (tfields info1) (tfields info2) A (ext_refl _)).
       intros a c Ha Hc.
-      pose proof (topo_tuple P Htopo s tid1 info1 a Hls Ht1 Ha).
-      pose proof (topo_tuple P Htopo p tid2 info2 c Hlp Ht2 Hc).
+      pose proof (wt_tuple s tid1 info1 a Hsn Hls Ht1 Ha).
+      pose proof (wt_tuple p tid2 info2 c Hpn Hlp Ht2 Hc).
       repeat split; [lia|lia|apply w_child; lia].
     - (* tuple / partial *)
       destruct (lookup_tuple P tid1) as [info1|] eqn:Ht1; [|triv].
@@ -442,8 +453,8 @@ Section Term.
       apply (all_partial_fields_ok rec A (Qw s p) ss ps (Hstruct Hucs Hucp Hcys Hcyp ss ps Hss Hps) (Qmono _)
                (tfields info1) pf2 A (ext_refl _)).
       intros a f Ha Hf.
-      pose proof (topo_tuple P Htopo s tid1 info1 a Hls Ht1 Ha).
-      pose proof (topo_partial P Htopo p pn2 pf2 f Hlp Hf).
+      pose proof (wt_tuple s tid1 info1 a Hsn Hls Ht1 Ha).
+      pose proof (wt_partial p pn2 pf2 f Hpn Hlp Hf).
       repeat split; [lia|lia|apply w_child; lia].
     - (* partial / tuple: ANY mode re-dispatches with the sides (and stacks) swapped *)
       match goal with |- context [if ?c then _ else _] => destruct c end; [|triv].
@@ -455,20 +466,20 @@ Section Term.
       apply (all_partial_partial_ok rec A (Qw s p) ss ps (Hstruct Hucs Hucp Hcys Hcyp ss ps Hss Hps) (Qmono _)
                pf1 pf2 A (ext_refl _)).
       intros a f Ha Hf.
-      pose proof (topo_partial P Htopo s pn1 pf1 a Hls Ha).
-      pose proof (topo_partial P Htopo p pn2 pf2 f Hlp Hf).
+      pose proof (wt_partial s pn1 pf1 a Hsn Hls Ha).
+      pose proof (wt_partial p pn2 pf2 f Hpn Hlp Hf).
       repeat split; [lia|lia|apply w_child; lia].
     - (* callable / callable: the pair is recorded (Hcall), the three component checks run under it *)
       (* (ANY mode with the F25 repair answers `true` at once: Rel.v cfg_any_callable) *)
       match goal with |- context [if ?c then Some (true, A) else _] => destruct c end; [triv|].
       rewrite Hcall.
       apply (retract_ok _ (s, p)).
-      destruct (topo_callable P Htopo s p1 r1 c1 Hls) as [Lp1 [Lr1 Lc1]].
-      destruct (topo_callable P Htopo p p2 r2 c2 Hlp) as [Lp2 [Lr2 Lc2]].
+      destruct (wt_callable s p1 r1 c1 Hsn Hls) as [Lp1 [Lr1 Lc1]].
+      destruct (wt_callable p p2 r2 c2 Hpn Hlp) as [Lp2 [Lr2 Lc2]].
       assert (S1 : stack_ok (if cfg_selfstack cfg then push_once ss s else ss)).
-      { destruct (cfg_selfstack cfg); [|exact Hss]. apply stack_ok_push; [exact Hss|]. rewrite Hucs. reflexivity. }
+      { destruct (cfg_selfstack cfg); [|exact Hss]. apply stack_ok_push; [exact Hss| |exact Hsn]. rewrite Hucs. reflexivity. }
       assert (S2 : stack_ok (push_once ps p)).
-      { apply stack_ok_push; [exact Hps|]. rewrite Hucp. reflexivity. }
+      { apply stack_ok_push; [exact Hps| |exact Hpn]. rewrite Hucp. reflexivity. }
       set (ss1 := if cfg_selfstack cfg then push_once ss s else ss) in *.
       set (ps1 := push_once ps p) in *.
       assert (SC : stack_ok (if cfg_selfstack cfg then ps1 else ss1) /\ stack_ok (if cfg_selfstack cfg then ss1 else ps1))
@@ -494,7 +505,7 @@ Section Term.
                                  end = Some (b1, A1) /\ ext A1 A).
       { destruct sd1 as [s1|]; [|triv]. destruct sd2 as [s2|]; [|triv].
         apply (Hstruct Hucs Hucp Hcys Hcyp ss ps Hss Hps A s1 s2 (ext_refl _)).
-        pose proof (topo_proc_send _ _ _ Hls). pose proof (topo_proc_send _ _ _ Hlp).
+        pose proof (topo_proc_send _ _ _ Hsn Hls). pose proof (topo_proc_send _ _ _ Hpn Hlp).
         repeat split; [lia|lia|apply w_child; lia]. }
       destruct R1 as [b1 [A1 [E1 X1]]].
       match goal with |- context [match ?e with Some _ => _ | None => None end] =>
@@ -505,7 +516,7 @@ Section Term.
                                  end = Some (b2, A2) /\ ext A2 A1).
       { destruct rv1 as [x1|]; [|triv]. destruct rv2 as [x2|]; [|triv].
         apply (Hstruct Hucs Hucp Hcys Hcyp ss ps Hss Hps A1 x1 x2 X1).
-        pose proof (topo_proc_recv _ _ _ Hls). pose proof (topo_proc_recv _ _ _ Hlp).
+        pose proof (topo_proc_recv _ _ _ Hsn Hls). pose proof (topo_proc_recv _ _ _ Hpn Hlp).
         repeat split; [lia|lia|apply w_child; lia]. }
       destruct R2 as [b2 [A2 [E2 X2]]].
       match goal with |- context [match ?e with Some _ => _ | None => None end] =>
@@ -521,10 +532,10 @@ Section Term.
   Proof. unfold is_uc, is_cyc. destruct (lookup_type P id) as [[]|]; congruence. Qed.
 
   Lemma answers_S f A ss ps s p :
-    stack_ok ss -> stack_ok ps ->
+    s < n -> p < n -> stack_ok ss -> stack_ok ps ->
     (forall A' ss' ps' s' p', stack_ok ss' -> stack_ok ps' -> call_rel A s p A' s' p' -> answers f A' ss' ps' s' p') ->
     answers (S f) A ss ps s p.
-  Proof. intros Hss Hps H. unfold answers, rec_ok. cbn [check_rel]. apply step_spec; assumption. Qed.
+  Proof. intros Hs Hp Hss Hps H. unfold answers, rec_ok. cbn [check_rel]. apply step_spec; assumption. Qed.
 
   Theorem check_rel_fuel_enough : forall U m f A ss ps s p,
     unassumed n A <= U -> stack_ok ss -> stack_ok ps -> s < n -> p < n -> w s p <= m ->
@@ -537,7 +548,7 @@ Section Term.
               is_cyc s = false -> is_cyc p = false -> (is_uc s = true \/ is_uc p = true) ->
               U * rel_C n + 1 <= f -> answers f A ss ps s p).
     { intros f A ss ps s p HU Hss Hps Hs Hp C1 C2 Huc Hf.
-      destruct f as [|f]; [lia|]. apply answers_S; [exact Hss|exact Hps|].
+      destruct f as [|f]; [lia|]. apply answers_S; [exact Hs|exact Hp|exact Hss|exact Hps|].
       intros A' ss' ps' s' p' S1 S2 [_ [_ [Hs' [Hp' [Has [X D]]]]]].
       destruct D as [[_ [_ [Hw [[U1 U2]|Ha']]]]|[[C _]|[_ [C _]]]]; try congruence.
       { destruct Huc; congruence. }
@@ -551,14 +562,14 @@ Section Term.
     { intros f A ss ps s p HU Hss Hps Hs Hp Hucs Hf.
       pose proof (uc_not_cyc _ Hucs) as C1.
       destruct (is_cyc p) eqn:C2.
-      - destruct f as [|f]; [lia|]. apply answers_S; [exact Hss|exact Hps|].
+      - destruct f as [|f]; [lia|]. apply answers_S; [exact Hs|exact Hp|exact Hss|exact Hps|].
         intros A' ss' ps' s' p' S1 S2 [_ [_ [Hs' [Hp' [Has [X D]]]]]].
         destruct D as [[_ [C _]]|[[C _]|[_ [_ [-> [-> Hu]]]]]]; try congruence.
         apply Landing; try assumption; [apply uc_not_cyc; exact Hu|right; exact Hu|lia].
       - apply Landing; try assumption; [left; exact Hucs|lia]. }
     induction m as [|m IHm]; intros f A ss ps s p HU Hss Hps Hs Hp Hw Hf;
       (destruct f as [|f]; [unfold rel_need in Hf; lia|]);
-      apply answers_S; [exact Hss|exact Hps| |exact Hss|exact Hps|];
+      apply answers_S; [exact Hs|exact Hp|exact Hss|exact Hps| |exact Hs|exact Hp|exact Hss|exact Hps|];
       intros A' ss' ps' s' p' S1 S2 [_ [_ [Hs' [Hp' [Has [X D]]]]]];
       (destruct D as [[C1 [C2 [Hlt _]]]|[[C1 [-> [-> Hu]]]|[C1 [C2 [-> [-> Hu]]]]]];
        [|apply Semi; try assumption; unfold rel_need in Hf; lia
@@ -571,29 +582,38 @@ Section Term.
   Qed.
 
   (* the entry points: is_compatible / types_overlap start from empty state (types.rs:204-234) *)
-  Theorem check_rel_terminates_topo : forall fuel a b,
-    rel_bound n <= fuel -> exists r A', check_rel cfg P mode fuel [] [] [] a b = Some (r, A').
+  Theorem check_rel_terminates_window : forall fuel a b,
+    a < n -> b < n -> rel_bound n <= fuel -> exists r A', check_rel cfg P mode fuel [] [] [] a b = Some (r, A').
   Proof.
-    intros fuel a b Hf.
-    assert (Hpos : 4 <= fuel) by (unfold rel_bound, rel_need in Hf; lia).
-    destruct (lt_dec a n) as [Ha|Ha]; [destruct (lt_dec b n) as [Hb|Hb]|].
-    - destruct (check_rel_fuel_enough (n * n) (rel_W n) fuel [] [] [] a b) as [r [A' [E _]]];
-        try assumption; try apply stack_ok_nil.
-      + rewrite unassumed_nil. lia.
-      + apply w_bound; assumption.
-      + exists r, A'. exact E.
-    - (* a dangling pattern id: the lookup fails, `false` at once *)
-      destruct fuel as [|f]; [lia|]. cbn [check_rel]. unfold step.
-      destruct (Nat.eqb a b); [eexists _, _; reflexivity|]. cbn [assumed existsb].
-      destruct (lookup_type P a); [|eexists _, _; reflexivity].
-      assert (E : lookup_type P b = None) by (apply nth_error_None; unfold ntypes in Hb; lia).
-      rewrite E. eexists _, _; reflexivity.
-    - destruct fuel as [|f]; [lia|]. cbn [check_rel]. unfold step.
-      destruct (Nat.eqb a b); [eexists _, _; reflexivity|]. cbn [assumed existsb].
-      assert (E : lookup_type P a = None) by (apply nth_error_None; unfold ntypes in Ha; lia).
-      rewrite E. eexists _, _; reflexivity.
+    intros fuel a b Ha Hb Hf.
+    destruct (check_rel_fuel_enough (n * n) (rel_W n) fuel [] [] [] a b) as [r [A' [E _]]];
+      try assumption; try apply stack_ok_nil.
+    - rewrite unassumed_nil. lia.
+    - apply w_bound; assumption.
+    - exists r, A'. exact E.
   Qed.
 End Term.
+
+(* the plain statement: the window is the whole registry; dangling ids answer at once *)
+Theorem check_rel_terminates_topo : forall cfg P mode,
+  cfg_callable_assume cfg = true -> topo P ->
+  forall fuel a b, rel_bound (ntypes P) <= fuel -> exists r A', check_rel cfg P mode fuel [] [] [] a b = Some (r, A').
+Proof.
+  intros cfg P mode Hcall Htopo fuel a b Hf.
+  assert (Hpos : 4 <= fuel) by (unfold rel_bound, rel_need in Hf; lia).
+  destruct (lt_dec a (ntypes P)) as [Ha|Ha]; [destruct (lt_dec b (ntypes P)) as [Hb|Hb]|].
+  - apply (check_rel_terminates_window cfg P mode Hcall (ntypes P) (fun id t _ Hl => Htopo id t Hl)); assumption.
+  - (* a dangling pattern id: the lookup fails, `false` at once *)
+    destruct fuel as [|f]; [lia|]. cbn [check_rel]. unfold step.
+    destruct (Nat.eqb a b); [eexists _, _; reflexivity|]. cbn [assumed existsb].
+    destruct (lookup_type P a); [|eexists _, _; reflexivity].
+    assert (E : lookup_type P b = None) by (apply nth_error_None; unfold ntypes in Hb; lia).
+    rewrite E. eexists _, _; reflexivity.
+  - destruct fuel as [|f]; [lia|]. cbn [check_rel]. unfold step.
+    destruct (Nat.eqb a b); [eexists _, _; reflexivity|]. cbn [assumed existsb].
+    assert (E : lookup_type P a = None) by (apply nth_error_None; unfold ntypes in Ha; lia).
+    rewrite E. eexists _, _; reflexivity.
+Qed.
 
 (* ------------------------------------------------------------------ the statements of props/C18.v *)
 Theorem check_rel_terminates_gen : forall cfg P mode fuel a b,
